@@ -122,10 +122,31 @@ PROPS["C20"] = dict(
     assumptions=["gRPC loopback-only listening (api/server.go) is a constant and is not exercised", "non-plain parser inputs (signs, empty parts) are reported as labels only: the statement covers rendered amounts"],
 )
 
+MDB = "poc/engine/massdb/massdb.v1"
+PROPS["C07"] = dict(
+    pkgs=[MDB], level="exploration",
+    quick=dict(checks=480, shards=16, timeout=600),
+    thorough=dict(checks=6400, shards=16, timeout=2400),
+    technique="property-based testing on a scale model: generated keys, bit lengths and window configurations are plotted with the real code (hook H1 caps the cache); validity oracle from the chain library, completeness against an independent reference construction, metamorphic window-independence",
+    level_text="Real CreateDB/Plot/prePlotWork/plotWork runs at bit lengths 8-16 with generated multi-window configurations; every entry is validated with pocutil P/F, completeness is judged against a windowless reference, and two window configurations must give byte-identical tables. Exploration on a scale model.",
+    level_note="Trusted: mass-core pocutil (P, F, FlipValue, RecordSize) as the definition of the construction; the reference table builder in zz_verif_plot_test.go. Assumption: the passes are parametric in the bit length (supported sizes 24-40 differ only in scale); x=0 cannot be stored (zero = empty) by construction.",
+    assumptions=["scale model: bit lengths 8..16 instead of 24..40 (one BL=24 plot in the thorough tier)", "window caps below 2 records (A) / 1 pair (B) are outside the code's precondition (production minimum is 256 MiB) and are not generated"],
+)
+
+PROPS["C10"] = dict(
+    pkgs=[MDB], level="fault_enumeration",
+    quick=dict(checks=320, shards=16, timeout=600),
+    thorough=dict(checks=6400, shards=16, timeout=2400),
+    technique="interruption enumeration driven by property-based generation: graceful StopPlot at every named point of both passes (hook H2), resume with other window sizes, judged against an independent reference table; abrupt crashes enumerated from a syscall trace",
+    level_text="Generated configurations (key, bit length, window caps per run) are interrupted at generated named points of both passes, re-opened, judged (plotted => complete, progress covered by final data) and resumed to completion; non-termination of a resume is a deterministic verdict from non-advancing window events.",
+    level_note="Trusted: mass-core pocutil; the reference construction; hook H2 placement for graceful stops (crash points do not rely on it: they come from the kernel-level trace).",
+    assumptions=["scale model bit lengths 8..14", "a graceful stop takes effect at the next stop check of the plotting loop (start of a scan or inside the cache write-out)"],
+)
+
 META = dict(
     na_default="check not built yet in this session (work in progress; see DESIGN.md §4) - not a claim that the technique cannot apply",
     hooks=dict(guard="verif", enable="go test -tags verif (the driver ./check always builds with -tags verif through -overlay/-modfile, see DESIGN.md §2.2)",
-               baseline_off_cmd="cd /repo && go test -vet=off -count=1 -timeout 25m ./...", source_commits=[], add_only=True),
+               baseline_off_cmd="cd /repo && go test -vet=off -count=1 -timeout 25m ./...", source_commits=["9621cb3"], add_only=True),
     engines=[
         dict(name="rapid-harness", path="check", serves_properties=[], kind_free_text="python driver + in-package Go harness files (harness/**/zz_verif_*_test.go) injected with go test -overlay; pgregory.net/rapid v1.3.0 generates and shrinks; plain-JSON replays"),
     ],
